@@ -259,3 +259,137 @@ Proof.
     apply N.eqb_neq in H2, H4. rewrite H2, H4. split; [discriminate|].
     intros [b' [= -> _]]. discriminate.
 Qed.
+
+(* ---------- request bodies across retries ---------- *)
+
+Lemma retry_loop_ge rs budget : forall fuel a h n,
+  retry_loop fuel budget a rs = Some (h, n) -> a + 1 <= n.
+Proof.
+  induction fuel as [|fuel IH]; intros a h n E; [discriminate|]. cbn [retry_loop] in E.
+  destruct (retryable (issue_once (rs (N.to_nat (a + 1 - 1))))).
+  - destruct (budget <=? a + 1); [injection E as _ <-; lia|]. apply IH in E. lia.
+  - injection E as _ <-. lia.
+Qed.
+
+(* the log is: one body per request sent, the k-th produced by the k-th call of the callback *)
+Lemma retry_loop_log_spec body rs budget : forall fuel a,
+  retry_loop_log fuel budget a body rs =
+  match retry_loop fuel budget a rs with
+  | Some (h, n) => Some (h, n, map body (seq (N.to_nat a) (N.to_nat n - N.to_nat a)))
+  | None => None
+  end.
+Proof.
+  induction fuel as [|fuel IH]; intros a; [reflexivity|]. cbn [retry_loop_log retry_loop].
+  replace (N.to_nat (a + 1 - 1)) with (N.to_nat a) by lia.
+  destruct (retryable (issue_once (rs (N.to_nat a)))).
+  - destruct (budget <=? a + 1).
+    + replace (N.to_nat (a + 1) - N.to_nat a)%nat with 1%nat by lia. reflexivity.
+    + rewrite IH. destruct (retry_loop fuel budget (a + 1) rs) as [[h n]|] eqn:E; [|reflexivity].
+      apply retry_loop_ge in E.
+      replace (N.to_nat n - N.to_nat a)%nat with (S (N.to_nat n - N.to_nat (a + 1))) by lia.
+      cbn [seq map]. replace (S (N.to_nat a)) with (N.to_nat (a + 1)) by lia. reflexivity.
+  - replace (N.to_nat (a + 1) - N.to_nat a)%nat with 1%nat by lia. reflexivity.
+Qed.
+
+Lemma issue_retryable_log_spec budget body rs :
+  issue_retryable_log budget body rs =
+  (fst (issue_retryable budget rs), snd (issue_retryable budget rs),
+   map body (seq 0 (N.to_nat (snd (issue_retryable budget rs))))).
+Proof.
+  unfold issue_retryable_log, issue_retryable. rewrite retry_loop_log_spec.
+  pose proof (retry_loop_fuel budget rs) as Hf.
+  destruct (retry_loop (retry_fuel budget) budget 0 rs) as [[h n]|]; [|congruence].
+  cbn [fst snd]. replace (N.to_nat n - N.to_nat 0)%nat with (N.to_nat n) by lia. reflexivity.
+Qed.
+
+Lemma map_const_seq {A} (p : A) a n : map (fun _ => p) (seq a n) = repeat p n.
+Proof. revert a. induction n as [|n IH]; intros a; [reflexivity|]. cbn. now rewrite IH. Qed.
+
+(* StoreIndex / StoreChunk: EVERY attempt carries the whole payload, the number of attempts is
+   the one of the retry loop (so within the budget), and the result is StoreObject's *)
+Lemma store_payload_log_spec budget payload rs :
+  store_payload_log budget payload rs =
+  (fst (store_object budget rs), snd (store_object budget rs),
+   repeat payload (N.to_nat (snd (store_object budget rs)))).
+Proof.
+  unfold store_payload_log, store_object_log. rewrite issue_retryable_log_spec, store_object_eq.
+  cbn [fst snd]. now rewrite map_const_seq.
+Qed.
+
+Lemma store_payload_bodies budget payload rs :
+  let '(ok, n, bodies) := store_payload_log budget payload rs in
+  Forall (fun b => b = payload) bodies /\ length bodies = N.to_nat n /\ 1 <= n <= max_attempts budget.
+Proof.
+  rewrite store_payload_log_spec. split; [|split].
+  - apply Forall_forall. intros x Hx. now apply repeat_spec in Hx.
+  - apply repeat_length.
+  - rewrite store_object_eq. cbn [snd]. apply retry_bound.
+Qed.
+
+Definition is_2xx (r : resp_ev) : bool :=
+  match r with Status st _ => (st =? 200) || (st =? 201) | _ => false end.
+
+Lemma retryable_not_2xx r : retryable (issue_once r) = true -> is_2xx r = false.
+Proof. destruct r as [st b| |]; cbn; [|reflexivity|reflexivity]. intros E. lia. Qed.
+
+Lemma is_2xx_not_retryable r : is_2xx r = true -> retryable (issue_once r) = false.
+Proof. destruct r as [st b| |]; cbn; [|discriminate|discriminate]. intros E. lia. Qed.
+
+Lemma put_of_is_2xx r : put_of (issue_once r) = is_2xx r.
+Proof. destruct r; reflexivity. Qed.
+
+(* success iff the first non-retryable answer, within the budget, is 200/201 *)
+Lemma store_payload_ok_iff budget payload rs :
+  fst (fst (store_payload_log budget payload rs)) = true <->
+  exists k, k < max_attempts budget /\ (forall j, j < k -> retry_at rs j = true) /\ is_2xx (rs (N.to_nat k)) = true.
+Proof.
+  rewrite store_payload_log_spec, store_object_eq. cbn [fst snd]. split.
+  - rewrite issue_retryable_spec. unfold issue_spec.
+    destruct (first_stop rs 0 (N.to_nat (max_attempts budget))) as [k|] eqn:E; cbn [fst].
+    + apply first_stop_some in E as [H1 [H2 H3]]. rewrite put_of_is_2xx. intros Hk.
+      exists k. split; [lia|]. split; [intros j Hj; apply H3; lia|exact Hk].
+    + pose proof (first_stop_none _ _ _ E (max_attempts budget - 1)) as Hr.
+      assert (retryable (issue_once (rs (N.to_nat (max_attempts budget - 1)))) = true) as Hr'
+        by (apply Hr; unfold max_attempts; lia).
+      destruct (give_up_class _ Hr') as [-> | ->]; discriminate.
+  - intros [k [Hk [Hre H2]]]. rewrite (retry_transparent budget rs k Hk Hre (is_2xx_not_retryable _ H2)).
+    cbn [fst]. now rewrite put_of_is_2xx.
+Qed.
+
+(* what a server that keeps the body of every PUT it answers 2xx holds afterwards *)
+Lemma stored_after_retry rs p : forall m k0 rest obj,
+  (forall j, (k0 <= j < k0 + m)%nat -> retry_at rs (N.of_nat j) = true) ->
+  stored_after rs k0 (repeat p m ++ rest) obj = stored_after rs (k0 + m) rest obj.
+Proof.
+  induction m as [|m IH]; intros k0 rest obj Hre.
+  - cbn. now rewrite Nat.add_0_r.
+  - cbn [repeat app stored_after].
+    assert (is_2xx (rs k0) = false) as Hn.
+    { apply retryable_not_2xx. specialize (Hre k0 ltac:(lia)). unfold retry_at in Hre.
+      now rewrite Nat2N.id in Hre. }
+    unfold is_2xx in Hn. destruct (rs k0) as [st b| |]; [rewrite Hn|..];
+      (rewrite IH by (intros j Hj; apply Hre; lia); f_equal; lia).
+Qed.
+
+(* reported success => the server holds exactly the payload; reported failure => the server
+   holds what it held before (no empty or partial object) *)
+Lemma store_payload_stored budget payload rs obj :
+  let '(ok, n, bodies) := store_payload_log budget payload rs in
+  stored_after rs 0 bodies obj = if ok then Some payload else obj.
+Proof.
+  rewrite store_payload_log_spec, store_object_eq. cbn [fst snd].
+  rewrite issue_retryable_spec. unfold issue_spec.
+  destruct (first_stop rs 0 (N.to_nat (max_attempts budget))) as [k|] eqn:E; cbn [fst snd].
+  - apply first_stop_some in E as [H1 [H2 H3]].
+    replace (N.to_nat (k + 1)) with (N.to_nat k + 1)%nat by lia.
+    rewrite repeat_app. cbn [repeat].
+    rewrite stored_after_retry by (intros j Hj; apply H3; lia).
+    cbn [Nat.add app stored_after]. rewrite put_of_is_2xx. unfold is_2xx.
+    destruct (rs (N.to_nat k)) as [st b| |]; reflexivity.
+  - pose proof (first_stop_none _ _ _ E) as Hall.
+    rewrite <- (app_nil_r (repeat payload _)).
+    rewrite stored_after_retry by (intros j Hj; apply Hall; lia). cbn [stored_after].
+    assert (retryable (issue_once (rs (N.to_nat (max_attempts budget - 1)))) = true) as Hr'
+      by (apply (Hall (max_attempts budget - 1)); unfold max_attempts; lia).
+    destruct (give_up_class _ Hr') as [-> | ->]; reflexivity.
+Qed.
